@@ -441,14 +441,14 @@ func check(prop, tier string, runsOverride int) int {
 	// aggregate
 	agg := struct {
 		evals, steps, episodes, inconcl int
-		simNS                          int64
-		faults, probes                 map[string]int
-		states                         map[string]bool
-		hashes                         map[string]bool
-		samples                        []any
-		components                     map[string]string
-		known                          map[string]int
-		knownWhat                      map[string]string
+		simNS                           int64
+		faults, probes                  map[string]int
+		states                          map[string]bool
+		hashes                          map[string]bool
+		samples                         []any
+		components                      map[string]string
+		known                           map[string]int
+		knownWhat                       map[string]string
 	}{faults: map[string]int{}, probes: map[string]int{}, states: map[string]bool{}, hashes: map[string]bool{}, known: map[string]int{}, knownWhat: map[string]string{}}
 	harness := 0
 	var harnessMsgs []string
@@ -591,26 +591,26 @@ func check(prop, tier string, runsOverride int) int {
 		"seed":        base,
 		"level":       spec.Level,
 		"coverage": map[string]any{
-			"evaluations":         max(agg.evals, 0),
-			"distinct_nontrivial": nontriv,
-			"rule":                spec.Rule,
-			"samples":             agg.samples,
-			"runs":                ok,
+			"evaluations":               max(agg.evals, 0),
+			"distinct_nontrivial":       nontriv,
+			"rule":                      spec.Rule,
+			"samples":                   agg.samples,
+			"runs":                      ok,
 			"runs_with_harness_trouble": harness,
-			"seeds":               fmt.Sprintf("%d..%d", base*1000003, base*1000003+uint64(runs)-1),
-			"runs_per_hour":       int(float64(ok) / wall * 3600),
-			"episodes":            agg.evals,
-			"scheduler_steps":     agg.steps,
-			"simulated_time_s":    float64(agg.simNS) / 1e9,
-			"faults_fired":        agg.faults,
-			"rare_branch_probes":  agg.probes,
-			"distinct_trace_hashes": len(agg.hashes),
+			"seeds":                     fmt.Sprintf("%d..%d", base*1000003, base*1000003+uint64(runs)-1),
+			"runs_per_hour":             int(float64(ok) / wall * 3600),
+			"episodes":                  agg.evals,
+			"scheduler_steps":           agg.steps,
+			"simulated_time_s":          float64(agg.simNS) / 1e9,
+			"faults_fired":              agg.faults,
+			"rare_branch_probes":        agg.probes,
+			"distinct_trace_hashes":     len(agg.hashes),
 			"distinct_state_signatures": len(agg.states),
 			"state_signature_examples":  stateList,
-			"inconclusive":        agg.inconcl,
-			"components":          agg.components,
-			"known_finding_hits":  agg.known,
-			"workers":             workers,
+			"inconclusive":              agg.inconcl,
+			"components":                agg.components,
+			"known_finding_hits":        agg.known,
+			"workers":                   workers,
 		},
 		"assumptions": spec.Assume,
 		"wall_s":      wall,
